@@ -88,6 +88,11 @@ def classify(argv, want_trace=True):
         blocks = [t for t, l in R.split_blocks(so[:m.start()])]
         res['func'] = blocks[-1] if blocks else 'HEAD'
         res['stage'] = 'step_print'
+        # the directive gain is a logarithm of (radiated / input power): with sources and active ("negative
+        # resistance") loads that together take no power from the generators it is undefined
+        pw = [float(x) for x in re.findall(r'POWER = *(\S+) +WATTS', so[:m.start()])]
+        if res['func'] == 'PATTERN DATA' and pw and sum(pw) <= 0:
+            res['cause'] = 'nonpositive-input-power'
         return res
     try:
         rep = R.parse_report(so)
@@ -161,8 +166,17 @@ def site_group(k):
 BAD = ('crash', 'nonfinite', 'partial-report', 'diag-malformed', 'bad-return', 'timeout')
 
 
+def fault_key(sid):
+    """the fault of a site without the base command line it was planted in and without the index of the option
+       instance: 'media/wire#3/7/inf' -> 'wire/7/inf' (option wire, field 7, value inf)"""
+    if sid is None:
+        return None
+    return '+'.join('/'.join([p.split('/')[1].split('#')[0]] + p.split('/')[2:]) if p.split('/')[1] != 'x' else p
+                    for p in sid.split('+'))
+
+
 def signature(sid_fired, o):
-    return dict(kind=o['kind'], site=sid_fired, exc=o['exc'], func=o['func'])
+    return dict(kind=o['kind'], site=fault_key(sid_fired), exc=o['exc'], func=o['func'], cause=o.get('cause'))
 
 
 def run(tier):
@@ -191,6 +205,10 @@ def run(tier):
             raise C.Machinery('Cmdline spec invariant %s violated' % r.violated)
         if not r.ok and not r.violated:
             raise C.Machinery('TLC failed on Cmdline: ' + r.out[-1500:])
+    failing_keys = {}
+    for k, v in table.items():
+        if v['kind'] in BAD:
+            failing_keys.setdefault(fault_key(k), set()).add((v['kind'], v['exc'], v['func']))
     scen = {}
     for rec in list(res1.printed()) + list(res2.printed()):
         key = tuple(rec['faults'])
@@ -224,10 +242,23 @@ def run(tier):
             # if that attribution is not a recorded finding, the other present site is tried (two
             # faults of one stage, or a fault that changes when the other one takes effect)
             cands = [sid] + [x for x in sl if x != sid]
-            known = [x for x in cands if any(all(C._match(signature(x, o).get(k), v) for k, v in f['match'].items())
-                                             for f in chk.findings)]
-            chk.violation(signature(known[0] if known else sid, o),
-                          dict(sites=sl, argv=argv, observed=o, predicted=rec))
+            is_known = lambda sg: any(all(C._match(sg.get(k), v) for k, v in f['match'].items()) for f in chk.findings)
+            known = [x for x in cands if is_known(signature(x, o))]
+            sg = signature(known[0] if known else sid, o)
+            if not known and len(sl) == 2:
+                # two faults: a fault whose value is recorded as reaching the computation unchecked (it fails on
+                # its own in some base command) is the same finding when the second fault merely changes WHERE the
+                # bad number surfaces (e.g. no tapering -> no taper assertion -> the report writer instead)
+                for x in sl:
+                    for t in failing_keys.get(fault_key(x), ()):
+                        alt = dict(kind=t[0], site=fault_key(x), exc=t[1], func=t[2], cause=None)
+                        if is_known(alt):
+                            sg = dict(alt, surfaces_as=[o['kind'], o['exc'], o['func']])
+                            break
+                    else:
+                        continue
+                    break
+            chk.violation(sg, dict(sites=sl, argv=argv, observed=o, predicted=rec))
         elif pred_kind in ('crash', 'nonfinite'):
             pess += 1
         if o['kind'] == pred_kind:
